@@ -1,6 +1,7 @@
 #!/bin/bash
 # apply one seeded change and run EVERY claimed check (quick tier); print which checks report it
 cd /verif
+export VERIF_EVIDENCE_DIR=/tmp/verif_sweep/evidence VERIF_REPLAY_OUT=/tmp/verif_sweep/replay; mkdir -p $VERIF_EVIDENCE_DIR $VERIF_REPLAY_OUT
 m=$1
 tools/apply_seed.sh /verif/seeded/$m/patch.diff || { echo "$m: PATCH-DOES-NOT-APPLY"; exit 1; }
 hit=""; und=""
